@@ -85,6 +85,8 @@ def inject(rng, cls, ds, cfg, defect):
             i, j = rng.sample(range(n), 2); idx[i], idx[j] = idx[j], idx[i]; y.index = idx
         else:
             y.index = idx[1:] + idx[:1]
+        if list(y.index) == list(ds["y"].index):
+            return None       # duplicated index labels: the re-ordering left the index as it was, nothing is malformed
         return Act(ds, y=y)
     if defect == "y_len":
         if n < 3:
